@@ -93,7 +93,11 @@ def interpolate_state(state_1: ObjectState, state_2: ObjectState, t1: float, t2:
     interpolated_position = tuple(interpolate_list(state_1.position, state_2.position, t1, t2, t))
     interpolated_orientation = interpolate_quaternion(state_1.orientation, state_2.orientation, t1, t2, t)
     interpolated_shape = state_1.shape  # shape will not change
-    interpolated_velocity = tuple(interpolate_list(state_1.velocity, state_2.velocity, t1, t2, t))
+    # velocity is optional (the loader sets it to None when it cannot be estimated)
+    if state_1.velocity is None or state_2.velocity is None:
+        interpolated_velocity = None
+    else:
+        interpolated_velocity = tuple(interpolate_list(state_1.velocity, state_2.velocity, t1, t2, t))
     return ObjectState(
         position=interpolated_position,
         orientation=interpolated_orientation,
